@@ -1,6 +1,7 @@
 package main
 
 import (
+	"go/token"
 	"go/types"
 	"sort"
 	"fmt"
@@ -24,6 +25,7 @@ func init() {
 func runC12(c *Ctx) {
 	defer c12IllegalChar(c)
 	defer c12OffsetScan(c)
+	defer c12LineColArithmetic(c)
 	p := c.P
 	c.note("R1 position-funnel: Lexer.error, Parser.error and Evaluator.error each return {Message: msg, Line: G#1, Col: G#2, SrcLine: G#0} with G = one GetLineAndCol(lexer, offset) call; no other function of package lang allocates or stores into a SyntaxError / RuntimeError.")
 	type funnel struct{ name, want string }
@@ -454,4 +456,157 @@ func c12OffsetScan(c *Ctx) {
 	if n == 0 {
 		c.undecided("R7", "offset-comparison", p.Pos(gl.Pos()), "GetLineAndCol never compares its position parameter")
 	}
+}
+
+// R8 line / column arithmetic of the position funnel (shape oracle)
+func c12LineColArithmetic(c *Ctx) {
+	p := c.P
+	c.note("R8 line-column-arithmetic: GetLineAndCol is one scan over the byte offsets i of the text. Oracle for that scan: the line counter starts at 1 and `+ 1` happens exactly under src[i] == '\\n'; the line start becomes i + 1 under the same test; the column is i - lineStart, assigned under i == pos; the returned source line is src[lineStart:i] at the newline that follows the position, or src[lineStart:] at the end of the text. A different algorithm is not recognised (UNDECIDED), whatever it computes.")
+	gl := p.LangFunc("(*Lexer).GetLineAndCol")
+	if gl == nil {
+		c.undecided("R8", "GetLineAndCol", "", "anchor not found")
+		return
+	}
+	F := FactsOf(gl)
+	var pos *ssa.Parameter
+	for _, prm := range gl.Params[1:] {
+		if b, ok := prm.Type().Underlying().(*types.Basic); ok && b.Info()&types.IsInteger != 0 {
+			pos = prm
+		}
+	}
+	// the index: the loop-carried integer compared with pos
+	var idx *ssa.Phi
+	allInstrs(gl, func(in ssa.Instruction) {
+		b, ok := in.(*ssa.BinOp)
+		if !ok || b.Op != token.EQL {
+			return
+		}
+		for _, pair := range [][2]ssa.Value{{b.X, b.Y}, {b.Y, b.X}} {
+			if pair[1] == ssa.Value(pos) {
+				if ph, ok := pair[0].(*ssa.Phi); ok && loopCarried(ph) {
+					idx = ph
+				}
+			}
+		}
+	})
+	if idx == nil || pos == nil {
+		c.undecided("R8", "scan-index", p.Pos(gl.Pos()), "no loop index compared with the position parameter: the line / column computation is not the recognised scan")
+		return
+	}
+	atNewline := func(b *ssa.BasicBlock) bool {
+		for _, rl := range F.At(b).Rels() {
+
+			if k, ok := constInt(rl.y); ok && k == '\n' && rl.op == relEQ {
+				if u, ok := rl.x.(*ssa.UnOp); ok {
+					if ia, ok := u.X.(*ssa.IndexAddr); ok && ia.Index == ssa.Value(idx) {
+						return true
+					}
+				}
+				if lk, ok := rl.x.(*ssa.Lookup); ok && lk.Index == ssa.Value(idx) {
+					return true
+				}
+				if ix, ok := rl.x.(*ssa.Index); ok && ix.Index == ssa.Value(idx) {
+					return true
+				}
+			}
+		}
+		return false
+	}
+	atPos := func(b *ssa.BasicBlock) bool {
+		for _, rl := range F.At(b).Rels() {
+			if rl.op == relEQ && ((rl.x == ssa.Value(idx) && rl.y == ssa.Value(pos)) || (rl.y == ssa.Value(idx) && rl.x == ssa.Value(pos))) {
+				return true
+			}
+		}
+		return false
+	}
+	nLine, nStart, nCol := 0, 0, 0
+	okLine, okStart, okCol := true, true, true
+	allInstrs(gl, func(in ssa.Instruction) {
+		b, ok := in.(*ssa.BinOp)
+		if !ok {
+			return
+		}
+		one, isOne := constInt(b.Y)
+		switch {
+		case b.Op == token.ADD && isOne && one == 1 && b.X == ssa.Value(idx):
+			// i + 1: the loop step (in the latch) or the new line start (under the newline test)
+			if atNewline(b.Block()) {
+				nStart++
+			}
+		case b.Op == token.ADD && isOne && one == 1:
+			// some other counter + 1: the line counter
+			if ph, ok := b.X.(*ssa.Phi); ok && loopCarried(ph) {
+				nLine++
+				if !atNewline(b.Block()) {
+					okLine = false
+				}
+				init := false
+				for _, e := range ph.Edges {
+					if k, ok := constInt(e); ok && k == 1 {
+						init = true
+					}
+				}
+				if !init {
+					okLine = false
+				}
+			}
+		case b.Op == token.SUB && b.X == ssa.Value(idx):
+			nCol++
+			if !atPos(b.Block()) {
+				okCol = false
+			}
+			// the subtrahend is the line start: a loop-carried value starting at 0, or i + 1
+			okSub := false
+			var walk func(v ssa.Value, d int) bool
+			walk = func(v ssa.Value, d int) bool {
+				if d > 4 {
+					return false
+				}
+				switch x := v.(type) {
+				case *ssa.Phi:
+					for _, e := range x.Edges {
+						if k, ok := constInt(e); ok && k == 0 {
+							return true
+						}
+						if e != ssa.Value(x) && walk(e, d+1) {
+							return true
+						}
+					}
+				case *ssa.BinOp:
+					o, isO := constInt(x.Y)
+					return x.Op == token.ADD && isO && o == 1 && x.X == ssa.Value(idx)
+				}
+				return false
+			}
+			okSub = walk(b.Y, 0)
+			if !okSub {
+				okCol = false
+			}
+		}
+	})
+	_ = okStart
+	c.check(nLine == 1 && okLine, "R8", "line-counter", p.Pos(gl.Pos()), "line = 1 + number of '\\n' bytes before the position", fmt.Sprintf("the line counter is not `starts at 1, + 1 exactly at a '\\n' byte` (%d increments found)", nLine))
+	c.check(nStart >= 1, "R8", "line-start", p.Pos(gl.Pos()), "lineStart = i + 1 at a '\\n' byte", "no `i + 1` under the newline test: the start of the current line is not the byte after the last newline")
+	c.check(nCol == 1 && okCol, "R8", "column", p.Pos(gl.Pos()), "col = i - lineStart where i == pos", fmt.Sprintf("the column is not `i - lineStart` assigned under i == pos (%d candidate subtractions)", nCol))
+	// the returned line text
+	var texts []string
+	for _, r := range returnsOf(gl) {
+		if sl, ok := effectiveResults(r)[0].(*ssa.Slice); ok {
+			form := "src[lineStart:"
+			switch {
+			case sl.High == nil:
+				form += "]"
+			case sl.High == ssa.Value(idx) && atNewline(r.Block()):
+				form += "i] at a newline"
+			default:
+				form += "?]"
+			}
+			texts = append(texts, form)
+		} else {
+			texts = append(texts, "?")
+		}
+	}
+	sort.Strings(texts)
+	c.check(strings.Join(texts, " ; ") == "src[lineStart:] ; src[lineStart:i] at a newline", "R8", "source-line", p.Pos(gl.Pos()), "the quoted line runs from the line start to the next newline (or the end of the text)", "the returned source line is {"+strings.Join(texts, " ; ")+"}")
 }
